@@ -325,3 +325,5 @@ def rules(ctx):
     from . import common_backend as _B
     _B.polar_pair(ctx, "C11.polar", ("compilers/gaussian_unitary.py", "compilers/gaussian_merge.py"))
     ctx.floor("C11.polar", 1)
+    from . import c02 as _c02
+    _c02.zero_is_identity(ctx, "C11.generic-zero-test")
